@@ -410,6 +410,21 @@ func (fv *FV) frameCheckLoc(st *State, m modLoc, in ssa.Instruction, callee stri
 		var alts []*Term
 		alts = append(alts, Ge(mk("rootid", IntSort, xo), st.frameWM))
 		for _, c := range st.mods {
+			if c.kind == "allexcept" {
+				prot := false
+				for _, f := range m.fids {
+					if c.exceptFids[f] {
+						prot = true
+					}
+				}
+				if !prot {
+					if c.guard != nil {
+						alts = append(alts, c.guard)
+					} else {
+						alts = append(alts, True)
+					}
+				}
+			}
 			if c.kind == "each" {
 				covers := true
 				for _, f := range m.fids {
